@@ -119,6 +119,9 @@ sys.path.insert(0, sys.argv[1])
 from prometheus_client import parser as tp
 from prometheus_client.openmetrics import parser as op
 docs = json.load(sys.stdin)
+if len(sys.argv) > 2 and sys.argv[2] == 'legacy':
+    from prometheus_client import validation
+    validation.enable_legacy_validation()
 out = []
 for which, text in docs:
     f = tp.text_string_to_metric_families if which == 'text' else op.text_string_to_metric_families
@@ -189,6 +192,35 @@ def history_independence(ctx):
                      '%s parser: outcome %r in this process (after many other documents) but %r in a fresh interpreter on %r'
                      % (docs[i][0], here[i][:80], fresh[pos][:80], docs[i][1][:120]),
                      {'parser': docs[i][0], 'document': docs[i][1], 'history': True})
+    # the same under the legacy name-validation setting: every name of these documents has by now been through the validators
+    # with the setting off; with it on, the outcome must be what a process that never had it off computes
+    from prometheus_client import validation
+    qdocs = [d for d in docs if '"' in d[1].split('\n', 1)[0] or '{"' in d[1]][:80]
+    qdocs += [('om', '# TYPE "a.b" gauge\n{"a.b"} 1\n# EOF\n'), ('text', '# TYPE "a.b" gauge\n{"a.b"} 1\n'),
+              ('om', '# TYPE "caf\u00e9" counter\n{"caf\u00e9_total",l="v"} 1\n# EOF\n'), ('text', '{"x-y","l.m"="v"} 1\n'),
+              ('om', '# TYPE a gauge\na{"l.m"="v"} 1\n# EOF\n')]
+    for w, t in qdocs:
+        outcome_here(w, t)
+    was = validation.get_legacy_validation()
+    validation.enable_legacy_validation()
+    try:
+        here_l = [outcome_here(w, t) for w, t in qdocs]
+    finally:
+        (validation.enable_legacy_validation if was else validation.disable_legacy_validation)()
+    try:
+        p = subprocess.run([sys.executable, '-c', FRESH_SCRIPT, lib.REPO, 'legacy'], input=json.dumps(qdocs).encode(),
+                           stdout=subprocess.PIPE, stderr=subprocess.PIPE, timeout=300)
+        fresh_l = json.loads(p.stdout.decode())
+    except Exception as e:
+        raise lib.Infra('fresh-interpreter (legacy validation) run failed: %s' % e)
+    for (w, t), a, b in zip(qdocs, here_l, fresh_l):
+        ctx.case(nontrivial_key=('fresh-legacy', w, t[:60]))
+        ctx.count('history-independence:legacy-validation')
+        if a != b:
+            ctx.fail('C14:%s:outcome-depends-on-history' % w,
+                     '%s parser under legacy name validation: outcome %r in this process (where the same names were validated earlier with '
+                     'the setting off) but %r in a fresh interpreter that had it on from the start, on %r' % (w, a[:80], b[:80], t[:120]),
+                     {'parser': w, 'document': t, 'history': True})
 
 
 def run(ctx):
